@@ -27,20 +27,22 @@ def run(ctx):
     V.leg_m(ctx, "ProxyLogin", "ProxyLogin.MC.cfg", workers=4)
     cells, n = V.leg_g(ctx, "ProxyLoginGen", "ProxyLogin.Gen.cfg", "CELL", "cells.jsonl", workers=1)
     obs = os.path.join(ctx.scratch, "pl.ndjson")
-    s = V.harness(ctx, ["pl", "-in", cells, "-out", obs, "-seed", ctx.seed, "-reps", 1 if quick else 6, "-workers", V.NCPU])
+    s = V.harness(ctx, ["pl", "-in", cells, "-out", obs, "-seed", ctx.seed, "-reps", 3 if quick else 12, "-workers", V.NCPU])
     if s["extra"]["starts_completed_login"] < s["extra"]["starts"] // 2:
         raise V.Machinery("driver could not complete a login for most flow starts (%s)" % s["extra"])
     viols, _, nl = V.leg_v(ctx, "ProxyLoginTrace", "ProxyLoginTrace.cfg", obs, strip=("conc",))
     handle(ctx, viols, obs)
+    from checks import sso
+    e2e = sso.leg(ctx)
     lines = open(obs).read().splitlines()
     ctx.cov["samples"] += [json.loads(lines[0]), json.loads(lines[-1])]
     for smp in ctx.cov["samples"]:
         smp.pop("conc", None)
-    ctx.cov["evaluations"] = s["lines"]
+    ctx.cov["evaluations"] = s["lines"] + e2e["lines"]
     ctx.cov["distinct_nontrivial"] = s["distinct"] + s["extra"]["starts"]
     ctx.cov["flow_starts"] = s["extra"]
     ctx.cov["exhaustive"] = True
-    ctx.cov["exhaustive_scope"] = "every abstract callback cell executed (%d concretisations each); start targets are a fixed pool per class" % (1 if quick else 6)
+    ctx.cov["exhaustive_scope"] = "every abstract callback cell executed (%d concretisations each); start targets are a fixed pool per class" % (3 if quick else 12)
     ctx.assumptions += ["same-site is decided by an independent reader implementing browser URL rules (scheme-relative, back-slashes, control characters)",
                         "that hostile targets do not survive into the recorded URI rests on gorilla/mux path cleaning, as the property text says; it is observed, not modelled"]
     return V.finish(ctx, RULE)
